@@ -67,7 +67,7 @@ func ParseRemoteSource(given string) (RemoteSource, error) {
 	if u.Scheme == "" {
 		return RemoteSource{}, fmt.Errorf("must contain an absolute URL with a scheme")
 	}
-	if u.User != nil {
+	if urlHasUserinfo(u) {
 		return RemoteSource{}, fmt.Errorf("must not use username or password in URL portion")
 	}
 
@@ -104,7 +104,7 @@ func MakeRemoteSource(sourceType string, u *url.URL, subPath string) (RemoteSour
 
 	// The same rules apply as for a parsed address: no credentials in the URL
 	// and a query string that can actually be interpreted.
-	if u.User != nil {
+	if urlHasUserinfo(u) {
 		return RemoteSource{}, fmt.Errorf("must not use username or password in URL portion")
 	}
 	if _, err := url.ParseQuery(u.RawQuery); err != nil {
@@ -249,3 +249,15 @@ var remoteSourceShorthands = []remoteSourceShorthand{
 }
 
 var remoteSourceTypePattern = regexp.MustCompile(`^([A-Za-z0-9]+)::(.+)$`)
+
+// urlHasUserinfo reports whether u carries a user name or password. A URL
+// without "//" after its scheme ("ssh:git:pw@github.com/org/repo.git") is kept
+// by net/url as opaque text with no User part, but whatever stands before an
+// "@" in front of its first slash is a user name (and password) all the same.
+func urlHasUserinfo(u *url.URL) bool {
+	if u.User != nil {
+		return true
+	}
+	authority, _, _ := strings.Cut(u.Opaque, "/")
+	return strings.Contains(authority, "@")
+}
